@@ -105,8 +105,17 @@ def run_case_once(case, ch=None, ncb=1, extra_callbacks=None):
     keys = req_keys(req_form, K)
     cache = None
     if precache is not None:
+        # the pre-cached keys are literal nodes that are REMOVED from the graph and supplied through cache= instead
+        # (a key that is both a task of the graph and in the cache has no defined meaning and is not enumerated)
+        from dask._task_spec import convert_legacy_graph
+
         vals = ref_values(n, mask, kinds)
-        cache = {K[i]: vals[i] for i in precache}
+        dsk = dict(convert_legacy_graph(dsk))
+        cache = {}
+        for i in precache:
+            assert kinds[i] == "d"
+            del dsk[K[i]]
+            cache[K[i]] = vals[i]
     if any(ek == "W" for _, ek in fail) and entry in ("mp", "mp_noopt"):
         # prelude: an earlier failing computation in the same process whose exception class shares its NAME with kind W
         d0, K0 = build_graph(1, 0, "t", style, False, {0: "U"})
